@@ -104,7 +104,7 @@ pub fn run(cx: &mut Ctx) {
     cx.rule = "expansion bound on every generated input (C08/C09 families, random and de Bruijn sequences); effectiveness bound on periodic inputs: periods {1..=40} u {4080..=4096} u 64 random (quick) / all 1..=4096 (thorough) x pattern {random bytes, two-symbol, ramp} x n in {p,p+1,p+2,p+3,p+17,p+18,p+19,2p+5,3p+1,p+4095,p+4096,p+4097,20000}, both formats. Oracle = the two closed-form bounds of the statement. non-trivial = periodic case with n >= p+3; distinct by input hash".into();
     let miri = cfg!(miri);
     // expansion bound
-    let n = cx.a.n(3_000, 200_000);
+    let n = cx.a.n(10_000, 200_000);
     for i in 0..n {
         cx.case("expansion", |c| {
             let mut rng = c.rng.clone();
